@@ -1147,13 +1147,13 @@ class Interp:
                 self.frames.pop()
         j0 = self.ctx.fresh("j", Int)
         n_before = len(self.pure_guards)
-        f(j0)
+        r0 = f(j0)
         guards = self.pure_guards[n_before:]
         del self.pure_guards[n_before:]
         if guards:
             self.ctx.oblige(f"{self.frames[-1].qualname}/comprehension-does-not-raise", z3.Implies(AND(j0 >= 0, j0 < L.n), AND(*guards)),
                             kind="safety", props=getattr(self, "safety_props", ()))
-        return SymList(L.n, f)
+        return SymList(L.n, _eager(r0, j0, f))
 
     def lazy_filter_map(self, e, L):
         """[f(x) for x in L if c(x)] with pure f, c over a symbolic list: the selected indices sel(0) < sel(1) < ... <
@@ -1176,8 +1176,10 @@ class Interp:
                 self.frames.pop()
         j0 = ctx.fresh("j", Int)
         n_before = len(self.pure_guards)
-        ev(j0, "cond")
-        ev(j0, "elt")
+        c0 = ev(j0, "cond")
+        r0 = ev(j0, "elt")
+        cond_at = lambda i: z3.substitute(c0, (j0, i if z3.is_expr(i) else z3.IntVal(i)))
+        elt_at = _eager(r0, j0, lambda i: ev(i, "elt"))
         guards = self.pure_guards[n_before:]
         del self.pure_guards[n_before:]
         if guards:
@@ -1188,10 +1190,10 @@ class Interp:
         rank = ctx.fresh_fun("rank", Int, Int)
         i_, k_ = z3.Ints("i!f k!f")
         ctx.assume(AND(m >= 0, m <= L.n))
-        ctx.assume(z3.ForAll([k_], z3.Implies(AND(k_ >= 0, k_ < m), AND(sel(k_) >= 0, sel(k_) < L.n, ev(sel(k_), "cond"), rank(sel(k_)) == k_))))
+        ctx.assume(z3.ForAll([k_], z3.Implies(AND(k_ >= 0, k_ < m), AND(sel(k_) >= 0, sel(k_) < L.n, cond_at(sel(k_)), rank(sel(k_)) == k_))))
         ctx.assume(z3.ForAll([i_, k_], z3.Implies(AND(i_ >= 0, i_ < k_, k_ < m), sel(i_) < sel(k_))))
-        ctx.assume(z3.ForAll([i_], z3.Implies(AND(i_ >= 0, i_ < L.n, ev(i_, "cond")), AND(rank(i_) >= 0, rank(i_) < m, sel(rank(i_)) == i_))))
-        out = SymList(m, lambda k: ev(sel(k), "elt"))
+        ctx.assume(z3.ForAll([i_], z3.Implies(AND(i_ >= 0, i_ < L.n, cond_at(i_)), AND(rank(i_) >= 0, rank(i_) < m, sel(rank(i_)) == i_))))
+        out = SymList(m, lambda k: elt_at(sel(k)))
         out.sel, out.rank, out.source = sel, rank, L
         return out
 
@@ -1345,6 +1347,26 @@ def _consts_of(e):
 
 
 _INPLACE_DONE = object()
+
+
+def _eager(r0, j0, lazy):
+    """element function of a comprehension result: a Python list comprehension is evaluated when it is executed, so the
+    element expression must be read in the state of that moment.  r0 is the element evaluated at the fresh index j0
+    right then; for symbolic values (and tuples of them) later accesses substitute the index in r0 instead of
+    re-evaluating the expression in a possibly changed state.  Other values (library models: aliases of live objects)
+    are re-evaluated."""
+    def subst(v, i):
+        ie = i if z3.is_expr(i) else z3.IntVal(i)
+        if isinstance(v, Sym):
+            return Sym(z3.substitute(v.e, (j0, ie)))
+        if isinstance(v, tuple) and all(isinstance(x, (Sym, tuple, int, str, bool, type(None))) for x in v):
+            return tuple(subst(x, i) if isinstance(x, (Sym, tuple)) else x for x in v)
+        return None
+    if subst(r0, j0) is None and not isinstance(r0, (int, str, bool, type(None))):
+        return lazy
+    if isinstance(r0, (int, str, bool, type(None))):
+        return lambda i: r0
+    return lambda i: subst(r0, i)
 
 
 def _unsym(f):
